@@ -402,6 +402,12 @@ func (c GeometryCollection) CoordinatesType() CoordinatesType {
 // ForceCoordinatesType returns a new GeometryCollection with a different CoordinatesType. If
 // a dimension is added, then new values are populated with 0.
 func (c GeometryCollection) ForceCoordinatesType(newCType CoordinatesType) GeometryCollection {
+	if c.ctype == newCType {
+		// All children already have the requested type. Copying the whole
+		// tree regardless makes building deeply nested collections (where
+		// each level forces the level below) quadratic in their size.
+		return c
+	}
 	gs := make([]Geometry, len(c.geoms))
 	for i := range c.geoms {
 		gs[i] = c.geoms[i].ForceCoordinatesType(newCType)
